@@ -1,0 +1,131 @@
+//go:build verif
+
+// Contracts for the deductive verifier in /verif (govc). Only compiled with -tags verif.
+
+package channel
+
+// ---- C34: channel names -----------------------------------------------------------------------
+//
+// splitCount(s, "/") / splitPart(s, "/", i) are the number of components and the i-th component of s
+// as strings.Split(s, "/") produces them (library model, T4).
+
+//@ const [C34] channelRisks: []string{"stable", "candidate", "beta", "edge"}
+
+//@ define isRisk(s string) = s == "stable" || s == "candidate" || s == "beta" || s == "edge"
+
+// exactly the strings that parse: 1 to 3 components; track and branch non-empty where present; the risk
+// (second component, or the first when that is a risk name) one of the four risks
+//@ define parseOK(s string) = s != "" && (splitCount(s, "/") == 1 || (splitCount(s, "/") == 2 && ite(isRisk(splitPart(s, "/", 0)), splitPart(s, "/", 1) != "", splitPart(s, "/", 0) != "" && isRisk(splitPart(s, "/", 1)))) || (splitCount(s, "/") == 3 && splitPart(s, "/", 0) != "" && isRisk(splitPart(s, "/", 1)) && splitPart(s, "/", 2) != ""))
+
+//@ func ParseVerbatim
+//@   props C34
+//@   ensures [accepts] (result1 == nil) == parseOK(s)
+//@   ensures [empty] s == "" ==> result1 != nil
+//@   ensures [too-many] splitCount(s, "/") > 3 ==> result1 != nil
+//@   ensures [one-risk] result1 == nil && splitCount(s, "/") == 1 && isRisk(s) ==> result0.Risk == s && result0.Track == "" && result0.Branch == ""
+//@   ensures [one-track] result1 == nil && splitCount(s, "/") == 1 && !isRisk(s) ==> result0.Track == s && result0.Risk == "" && result0.Branch == ""
+//@   ensures [two-risk] result1 == nil && splitCount(s, "/") == 2 && isRisk(splitPart(s, "/", 0)) ==> result0.Risk == splitPart(s, "/", 0) && result0.Branch == splitPart(s, "/", 1) && result0.Track == "" && result0.Branch != ""
+//@   ensures [two-track] result1 == nil && splitCount(s, "/") == 2 && !isRisk(splitPart(s, "/", 0)) ==> result0.Track == splitPart(s, "/", 0) && result0.Risk == splitPart(s, "/", 1) && result0.Branch == "" && isRisk(result0.Risk) && result0.Track != ""
+//@   ensures [three] result1 == nil && splitCount(s, "/") == 3 ==> result0.Track == splitPart(s, "/", 0) && result0.Risk == splitPart(s, "/", 1) && result0.Branch == splitPart(s, "/", 2) && isRisk(result0.Risk) && result0.Track != "" && result0.Branch != ""
+//@   ensures [valid] result1 == nil ==> s != "" && splitCount(s, "/") <= 3 && (result0.Risk == "" || isRisk(result0.Risk)) && result0.Name == ""
+//@   ensures [arch] result1 == nil && architecture != "" ==> result0.Architecture == architecture
+
+// normalisation: "latest" is the unnamed track, the default risk is stable, the name is
+// [track/]risk[/branch]
+//@ func (Channel).Clean
+//@   props C34
+//@   ensures [track] result.Track == ite(c.Track == "latest", "", c.Track)
+//@   ensures [risk] result.Risk == ite(c.Risk == "", "stable", c.Risk)
+//@   ensures [name] result.Name == ite(result.Track != "", result.Track + "/", "") + result.Risk + ite(c.Branch != "", "/" + c.Branch, "")
+//@   ensures [rest] result.Branch == c.Branch && result.Architecture == c.Architecture
+
+//@ func (*Channel).VerbatimTrackOnly
+//@   props C34
+//@   ensures result == (c.Track != "" && c.Risk == "" && c.Branch == "")
+
+// Under a pinned track a request is resolved inside that track or refused
+//@ func ResolvePinned
+//@   props C34
+//@   ensures [unpinned] track == "" ==> result1 == nil && result0 == newChannel
+//@   ensures [inside] track != "" && result1 == nil ==> result0 == track || strings.HasPrefix(result0, track + "/")
+//@   ensures [risk-only] track != "" && result1 == nil && newChannel != "" && isRisk(splitPart(newChannel, "/", 0)) ==> result0 == track + "/" + newChannel
+//@   ensures [refused] track != "" && result1 != nil ==> result0 == ""
+
+// a request that starts with a risk keeps the current track
+//@ func Resolve
+//@   props C34
+//@   ensures [no-request] newChannel == "" ==> result1 == nil && result0 == channel
+//@   ensures [no-current] newChannel != "" && channel == "" ==> result1 == nil && result0 == newChannel
+//@   ensures [keeps-track] newChannel != "" && channel != "" && result1 == nil && isRisk(splitPart(newChannel, "/", 0)) && final(ch).Track != "" ==> result0 == final(ch).Track + "/" + newChannel
+//@   ensures [verbatim] newChannel != "" && channel != "" && result1 == nil && !(isRisk(splitPart(newChannel, "/", 0)) && final(ch).Track != "") ==> result0 == newChannel
+
+// the full form names track and risk: a missing track is "latest", a missing risk is "stable"
+// (components = the non-empty slash-separated fields of s)
+//@ func Full
+//@   props C34
+//@   ensures [empty] s == "" || len(final(components)) == 0 ==> result1 == nil && result0 == ""
+//@   ensures [one-risk] s != "" && len(final(components)) == 1 && isRisk(final(components)[0]) ==> result1 == nil && result0 == "latest/" + final(components)[0]
+//@   ensures [one-track] s != "" && len(final(components)) == 1 && !isRisk(final(components)[0]) ==> result1 == nil && result0 == final(components)[0] + "/stable"
+//@   ensures [two-risk] s != "" && len(final(components)) == 2 && isRisk(final(components)[0]) ==> result1 == nil && result0 == "latest/" + final(components)[0] + "/" + final(components)[1]
+//@   ensures [two-track] s != "" && len(final(components)) == 2 && !isRisk(final(components)[0]) ==> result1 == nil && result0 == final(components)[0] + "/" + final(components)[1]
+//@   ensures [three] s != "" && len(final(components)) == 3 ==> result1 == nil && result0 == final(components)[0] + "/" + final(components)[1] + "/" + final(components)[2]
+//@   ensures [too-many] s != "" && len(final(components)) > 3 ==> result1 != nil
+
+//@ func Parse
+//@   props C34
+//@   ensures [refused] result1 != nil ==> result0.Name == "" && result0.Track == "" && result0.Risk == "" && result0.Branch == ""
+
+// ---- normalising is stable ---------------------------------------------------------------------
+
+//@ func lemRiskNoSlash
+//@   lemma
+//@   props C34
+//@   requires isRisk(x)
+//@   ensures splitCount(x, "/") == 1 && x != "" && x != "latest"
+
+func lemRiskNoSlash(x string) {}
+
+//@ func lemSplit2
+//@   lemma
+//@   props C34
+//@   requires splitCount(a, "/") == 1 && splitCount(b, "/") == 1
+//@   ensures splitCount(a + "/" + b, "/") == 2 && splitPart(a + "/" + b, "/", 0) == a && splitPart(a + "/" + b, "/", 1) == b
+
+func lemSplit2(a, b string) {}
+
+//@ func lemSplit3
+//@   lemma
+//@   props C34
+//@   requires splitCount(a, "/") == 1 && splitCount(b, "/") == 1 && splitCount(c, "/") == 1
+//@   ensures splitCount(a + "/" + b + "/" + c, "/") == 3 && splitPart(a + "/" + b + "/" + c, "/", 0) == a && splitPart(a + "/" + b + "/" + c, "/", 1) == b && splitPart(a + "/" + b + "/" + c, "/", 2) == c
+
+func lemSplit3(a, b, c string) {}
+
+// parsing the name of a parsed (normalised) channel gives the same channel again
+//@ func lemParseIdempotent
+//@   lemma
+//@   props C34
+//@   requires a != ""
+//@   ensures result
+
+func lemParseIdempotent(s, a string) bool {
+	v, err := ParseVerbatim(s, a)
+	if err != nil {
+		return true
+	}
+	c := v.Clean()
+	lemRiskNoSlash(c.Risk)
+	if c.Track != "" && c.Branch != "" {
+		lemSplit3(c.Track, c.Risk, c.Branch)
+	} else if c.Track != "" {
+		lemSplit2(c.Track, c.Risk)
+	} else if c.Branch != "" {
+		lemSplit2(c.Risk, c.Branch)
+	}
+	v2, err2 := ParseVerbatim(c.Name, a)
+	if err2 != nil {
+		return false
+	}
+	c2 := v2.Clean()
+	return c2 == c
+}
